@@ -65,9 +65,13 @@ def select_programs(tier):
 
     def orders(B):
         return [None, [(f(B, "a"), "asc"), (f(B, "id"), "asc")], [(["arith", "*", f(B, "b"), raw(2)], "desc"), (f(B, "id"), None)],
-                [("ALIAS", "asc"), (f(B, "id"), "asc")]]
+                [("ALIAS", "asc"), (f(B, "id"), "asc")],
+                # a sort key repeated with another direction (the later occurrence is redundant, the first one decides)
+                [(f(B, "a"), "asc"), (f(B, "id"), "asc"), (f(B, "a"), "desc")],
+                [(f(B, "b"), "desc"), (f(B, "id"), "desc"), (f(B, "b"), "asc"), (f(B, "id"), "asc")]]
 
-    lims = [[], [["limit", 2]], [["limit", 2], ["offset", 1]], [["offset", 2]]]
+    lims = [[], [["limit", 2]], [["limit", 2], ["offset", 1]], [["offset", 2]], [["limit", 0]], [["limit", 0], ["offset", 1]], [["limit", 2], ["offset", 0]],
+            [["offset", 0]]]
     if tier == "quick":
         frm, join = frm[:3], [join[0], join[1], join[2], join[6]]
     for (B, F), J in itertools.product(frm, join):
@@ -77,7 +81,7 @@ def select_programs(tier):
             B = "t"
         S, W, O = sels(B), wheres(B), orders(B)
         if tier == "quick":
-            S, W, O, L = [S[0], S[2], S[3], S[6], S[8], S[9], S[10]], [W[0], W[1], W[2], W[4], W[6], W[9], W[11], W[13]], O[:3] + O[3:], lims
+            S, W, O, L = [S[0], S[2], S[3], S[6], S[8], S[9], S[10]], [W[0], W[1], W[2], W[4], W[6], W[9], W[11], W[13]], O[:3] + O[3:], lims[:6]
         else:
             L = lims
         for s, w, g, dist, o, l in itertools.product(S, W, [None, "col", "alias"], [False, True], O, L):
